@@ -364,17 +364,26 @@ def ignore_parser_root_bounded(ctx):
             roots[nm] = r
         want = {"A": ["vendor/", "*_pb2.py"], "B": ["generated/"]}
         actions = [("A", "A"), ("B", "B"), (None, "A"), (None, "B")]  # (root argument, working directory)
-        for k in (1, 2, 3):
+        for k, rel_spelling in ((1, False), (2, False), (3, False), (1, True), (2, True)):
             for seq in itertools.product(actions, repeat=k):
+                if rel_spelling and len({c for _a, c in seq}) > 1:
+                    continue  # relative roots across a chdir: recorded finding C08-ignore-parser-relative-root-key (separate check)
                 clear_ignore_parser_cache()
                 for arg, cwd in seq:
                     os.chdir(roots[cwd])
-                    p = get_ignore_parser(pathlib.Path(roots[arg]) if arg else None)
+                    given = pathlib.Path(roots[arg]) if arg else None
+                    if arg and rel_spelling:
+                        given = pathlib.Path(os.path.relpath(roots[arg]))  # the root spelled relative to the working directory
+                    p = get_ignore_parser(given)
                     exp = arg or cwd
                     cases += 1
-                    if os.path.realpath(str(p.project_root)) != roots[exp] or list(p.repo_patterns) != want[exp]:
+                    # the parser's root is THE GIVEN root, as given: callers relativise their (equally spelled) file paths
+                    # against it with Path.relative_to, which is purely lexical
+                    same_spelling = given is None or str(p.project_root) == str(given)
+                    if not same_spelling or os.path.realpath(str(p.project_root)) != roots[exp] or list(p.repo_patterns) != want[exp]:
                         w = {"sequence": [f"get_ignore_parser({'root ' + a if a else 'None'}) in cwd {c}" for a, c in seq],
-                             "returned_root": os.path.basename(os.path.realpath(str(p.project_root))), "expected_root": exp,
+                             "returned_root": str(p.project_root) if not same_spelling else os.path.basename(os.path.realpath(str(p.project_root))),
+                             "given_root": str(given), "expected_root": exp,
                              "returned_patterns": list(p.repo_patterns)}
                         return [dict(name=name, kind="bounded", verdict="refuted", carries=True, tool="native call sequences", cases=cases,
                                      budget="all sequences of length <= 3 over 4 actions", witness_confirmed=True, witness=w,
@@ -393,3 +402,47 @@ def ignore_parser_root_bounded(ctx):
     return [dict(name=name, kind="bounded", verdict="passed", carries=True, tool="native call sequences", cases=cases,
                  budget="all sequences of length <= 3 over {get(A), get(B), get(None)@A, get(None)@B}",
                  note=f"{cases} calls: the returned parser always belongs to the requested root (or the working directory)")]
+
+
+
+@custom("c08-ignore-parser-relative-root-bounded", props=["C08", "C09", "C14"])
+def ignore_parser_relative_root_bounded(ctx):
+    """BOUNDED, property-level: a RELATIVELY spelled project root means the directory it names NOW. Two projects, each
+    asked for with the root spelled `.` from inside it (chdir in between): each must get its own parser.
+    EXPECTED TO FAIL (C08-ignore-parser-relative-root-key): the singleton is keyed by the root's spelling, not by the
+    directory it denotes."""
+    import os
+    import pathlib
+    import shutil
+    import tempfile
+    name = "custom:c08-ignore-parser-relative-root-bounded/dot-root-after-chdir"
+    from pyvc import native as _native
+    _native._ensure_repo_on_path()
+    base = os.path.realpath(tempfile.mkdtemp(prefix="c08rel_"))
+    cwd0 = os.getcwd()
+    try:
+        from src.linter_config.ignore import clear_ignore_parser_cache, get_ignore_parser
+        for nm, pat in (("A", "vendor/\n"), ("B", "generated/\n")):
+            os.mkdir(os.path.join(base, nm))
+            pathlib.Path(base, nm, ".thailintignore").write_text(pat, encoding="utf-8")
+        clear_ignore_parser_cache()
+        os.chdir(os.path.join(base, "A"))
+        pa = list(get_ignore_parser(pathlib.Path(".")).repo_patterns)
+        os.chdir(os.path.join(base, "B"))
+        pb = list(get_ignore_parser(pathlib.Path(".")).repo_patterns)
+        if pa != ["vendor/"] or pb != ["generated/"]:
+            w = {"sequence": ["cwd A: get_ignore_parser(Path('.'))", "cwd B: get_ignore_parser(Path('.'))"], "patterns_in_A": pa, "patterns_in_B": pb}
+            return [dict(name=name, kind="bounded", verdict="refuted", carries=True, tool="native call sequence", cases=2,
+                         witness_confirmed=True, witness=w, note=f"project B is handed project A's parser: {w}")]
+    except BaseException as e:  # noqa
+        return [dict(name=name, kind="bounded", verdict="unknown", carries=True, tool="native call sequence", note=f"harness error {e!r}"[:300])]
+    finally:
+        os.chdir(cwd0)
+        shutil.rmtree(base, ignore_errors=True)
+        try:
+            from src.linter_config.ignore import clear_ignore_parser_cache as _c
+            _c()
+        except BaseException:  # noqa
+            pass
+    return [dict(name=name, kind="bounded", verdict="passed", carries=True, tool="native call sequence", cases=2,
+                 note="each project gets its own parser for the root spelled `.`")]
